@@ -25,22 +25,49 @@ class _GatePassed(Exception):
     pass
 
 
-def gate_top(itps, molecules, wd):
-    """gen_coords on a topology that includes the given .itp files and lists `molecules` = [(name, count)...]; returns 'raised' (IOError of
-    the connectivity gate), 'passed' (reached the step after the gate), or another text"""
+def gate_top(itps, molecules, wd, coord=None):
+    """gen_coords on a topology that includes the given .itp files and lists `molecules` = [(name, count)...], optionally with supplied
+    coordinates coord = {"kind": "c" | "mc", "k": residues covered, "res": [-res names]}; returns 'raised' (IOError of the connectivity
+    gate), 'passed' (reached the step after the gate and after the coordinate files), or another text"""
     import polyply.src.gen_coords as gc
     top = wd / "sys.top"
     types = sorted({a["atype"] for itp in itps for a in lu.read_itp(itp)[0]})
     top.write_text("[ defaults ]\n1 2 no 1.0 1.0\n[ atomtypes ]\n" + "".join("%s 10.0 0.0 A 0.3 1.0\n" % t for t in types)
                    + "".join('#include "%s"\n' % itp for itp in itps) + "[ system ]\ntest\n[ molecules ]\n"
                    + "".join("%s %d\n" % (name, count) for name, count in molecules))
+    kw = {}
+    if coord and coord["kind"] != "none":
+        # a coordinate file with positions for coord["k"] residues (-c: every atom of them, -mc: one position each)
+        by_name = {}
+        for itp in itps:
+            atoms = lu.read_itp(itp)[0]
+            by_name[open(itp).read().split("[ moleculetype ]")[1].split()[0]] = atoms
+        rows = []
+        for name, count in molecules:
+            for _ in range(count):
+                resids = sorted({a["resid"] for a in by_name[name]})
+                for rid in resids:
+                    ra = [a for a in by_name[name] if a["resid"] == rid]
+                    rows.append(ra if coord["kind"] == "c" else ra[:1])
+        rows = rows[:coord["k"]]
+        lines, n = [], 0
+        for k, ra in enumerate(rows):
+            for a in ra:
+                n += 1
+                lines.append("%5d%-5s%5s%5d%8.3f%8.3f%8.3f" % ((k + 1) % 100000, a["resname"][:5], a["atomname"][:5], n % 100000,
+                                                                0.4 + 0.3 * (k % 10), 0.4 + 0.3 * ((k // 10) % 10), 0.4 + 0.05 * (n % 7)))
+        gro = wd / "coords.gro"
+        gro.write_text("supplied\n%d\n%s\n   5.00000   5.00000   5.00000\n" % (n, "\n".join(lines)))
+        kw["coordpath" if coord["kind"] == "c" else "coordpath_meta"] = gro
+        if coord["res"]:
+            kw["build_res"] = list(coord["res"])
     orig = gc.load_build_files
 
     def stop(*a, **k):
         raise _GatePassed()
     gc.load_build_files = stop
     try:
-        gc.gen_coords(toppath=top, outpath=wd / "out.gro", name="test", box=[5.0, 5.0, 5.0])
+        gc.gen_coords(toppath=top, outpath=wd / "out.gro", name="test", box=[5.0, 5.0, 5.0], **kw)
     except _GatePassed:
         return "passed"
     except IOError as exc:
@@ -60,6 +87,10 @@ def _bonds_only(links):
     return all(x["kind"] == "bonds" for l in links for x in l["inters"])
 
 
+def _coord_text(co):
+    return "no coordinates" if co["kind"] == "none" else "-%s for %d residues%s" % (co["kind"], co["k"], (" -res " + " ".join(co["res"])) if co["res"] else "")
+
+
 def _multi_gate_chunk(arg):
     tops, itps, wdname = arg
     c.quiet()
@@ -68,73 +99,79 @@ def _multi_gate_chunk(arg):
     for t in tops:
         mols = [(e["mol"], e["count"]) for e in t["top"]]
         used = sorted({m for m, _ in mols})
-        got = gate_top([itps[m] for m in used], mols, wd)
-        want = "raised" if t["refuse"] else "passed"
+        got = gate_top([itps[m] for m in used], mols, wd, t["co"])
+        want = "raised" if t["must_refuse"] else "passed"
         if got != want:
             bad.append((t, got, want))
     return bad, len(tops)
 
 
-def multi_gate_stage(ck, res, dec, ffs, tier, rng):
-    """the gate over multi-molecule topologies: four generated molecules (two whose residue graph TLC calls connected, two disconnected)
-    combined as TLC's GateTops say (disconnected molecule first / in the middle / last, repeated types, counts 1-2)"""
+def multi_gate_stage(ck, res, tier, rng):
+    """the gate over multi-molecule topologies and supplied coordinates: the four molecules TLC defines (GATEMOLS: two whose residue
+    graph the P-layer calls connected, two disconnected) are generated by the real gen_params and combined as the exported cases say
+    (disconnected molecule first / in the middle / last, repeated types, -c / -mc files covering all, all but one, the first molecule,
+    one residue, with and without -res); cases in which the statement is silent (a disconnected molecule completely supplied by -c and
+    nothing else to refuse) are not asserted"""
     tops = res.cases()
-    if len(tops) < 500 or not any(t["refuse"] for t in tops) or all(t["refuse"] for t in tops):
-        raise c.MachineryError("gate export: %d topologies" % len(tops))
+    mols = res.tagged("GATEMOLS")
+    asserted = [t for t in tops if t["must_refuse"] or t["must_pass"]]
+    if len(tops) < 1500 or not mols or not any(t["must_refuse"] for t in tops) or not any(t["must_pass"] for t in tops) or len(asserted) == len(tops):
+        raise c.MachineryError("gate export: %d cases, %d asserted" % (len(tops), len(asserted)))
+    ck.extra["gate_cases_exported"] = {"all": len(tops), "must_refuse": sum(1 for t in tops if t["must_refuse"]), "must_pass": sum(1 for t in tops if t["must_pass"])}
     wd = c.workdir(PROP, "gate_molecules")
-    want = {"c1": True, "c2": True, "d1": False, "d2": False}
-    itps, chosen = {}, {}
-    cands = sorted(i for i, d in dec.items() if d["input"]["n"] >= 3 and not d["expected"]["removed"] and len(d["expected"]["edges"]) > len(d["input"]["edges"])
-                   and _edges_are_written(ffs[d["input"]["ff"] - 1]["links"]) and _bonds_only(ffs[d["input"]["ff"] - 1]["links"]) and ffs[d["input"]["ff"] - 1]["links"])
-    rng.shuffle(cands)
-    for name, conn in sorted(want.items()):
-        for i in cands:
-            d = dec[i]
-            if d["expected"]["connected"] != conn or i in chosen.values():
-                continue
-            ff = ffs[d["input"]["ff"] - 1]
-            sub = c.workdir(PROP, "gate_molecules/%s" % name)
-            paths = lu.write_ff(sub, ff["blocks"], ff["links"], "ff", 0)
-            obs = lu.run_gen_params(d["input"], ff["blocks"], ff["links"], paths, sub)
-            if "exception" in obs:
-                continue
-            txt = open(obs["itp"]).read()
-            head, sep, rest = txt.partition("[ moleculetype ]")
-            lines = rest.split("\n")
-            for k, line in enumerate(lines):
-                if line.split() and not line.strip().startswith(";"):
-                    lines[k] = "%s 1" % name
-                    break
-            out = wd / ("%s.itp" % name)
-            out.write_text(head + sep + "\n".join(lines))
-            single = gate_top([str(out)], [(name, 1)], sub)
-            if single != ("passed" if conn else "raised"):
-                ck.violation({"kind": "gate", "input": d["input"], "ff": ff, "expected": {"connected": conn}, "observed": single},
-                             what="gen_coords on one generated molecule (residue graph %s): connectivity gate %s" % ("connected" if conn else "disconnected", single))
-            itps[name], chosen[name] = str(out), i
-            break
+    itps = {}
+    for name, spec in sorted(mols[0].items()):
+        sub = c.workdir(PROP, "gate_molecules/%s" % name)
+        for l in spec["links"]:
+            for at in l["atoms"]:
+                if isinstance(at["rep"], list):
+                    at["rep"] = {}
+        for b in spec["blocks"].values():
+            b.setdefault("dang", [])
+        paths = lu.write_ff(sub, spec["blocks"], spec["links"], "ff", 0)
+        obs = lu.run_gen_params(spec["input"], spec["blocks"], spec["links"], paths, sub)
+        if "exception" in obs:
+            ck.violation({"kind": "gate", "input": spec["input"], "ff": {"blocks": spec["blocks"], "links": spec["links"]}, "observed": obs["exception"]},
+                         what="gen_params on gate molecule %s raised %s" % (name, obs["exception"]))
+            continue
+        txt = open(obs["itp"]).read()
+        head, sep, rest = txt.partition("[ moleculetype ]")
+        lines = rest.split("\n")
+        for k, line in enumerate(lines):
+            if line.split() and not line.strip().startswith(";"):
+                lines[k] = "%s 1" % name
+                break
+        out = wd / ("%s.itp" % name)
+        out.write_text(head + sep + "\n".join(lines))
+        itps[name] = str(out)
     # a precondition that misbehaving code can break: exit 2 only on a run without violations, otherwise the stage is skipped
     if not ck.require(len(itps) == 4, "gate stage: could not generate the four molecules (%s)" % sorted(itps)):
         return
-    pick = tops if tier == "thorough" or len(tops) <= 160 else rng.sample(tops, 160)
-    # the shapes named in the statement of the seed are always there: disconnected molecule first / in the middle / last, repeated types
-    must = [t for t in tops if [e["mol"] for e in t["top"]] in (["d1", "c1", "c2"], ["c1", "d1", "c2"], ["c1", "c2", "d1"], ["c1", "c1", "d1"], ["c1", "d1"], ["c1", "c2"])
-            and all(e["count"] == (2 if e["mol"] == "c1" else 1) for e in t["top"])]
-    pick = must + [t for t in pick if t not in must]
-    nbad = 0
+    if tier == "thorough":
+        pick = asserted
+    else:
+        # always there: the shapes the independent seeds describe; then a seeded sample of the rest
+        def shape(t):
+            return [e["mol"] for e in t["top"]], [e["count"] for e in t["top"]], t["co"]["kind"], t["co"]["k"], list(t["co"]["res"])
+        must = [t for t in asserted if shape(t)[2] == "none" and shape(t)[0] in (["d1", "c1", "c2"], ["c1", "d1", "c2"], ["c1", "c2", "d1"], ["c1", "c1", "d1"], ["c1", "d1"], ["c1", "c2"])
+                and all(e["count"] == (2 if e["mol"] == "c1" else 1) for e in t["top"])]
+        must += [t for t in asserted if shape(t)[0] in (["d1"], ["c1", "d2"], ["d1", "c1"], ["c2"]) and shape(t)[1] in ([1], [1, 1]) and shape(t)[2] != "none"]
+        rest = [t for t in asserted if t not in must]
+        pick = must + rng.sample(rest, min(len(rest), 170))
     for bad, n in c.pmap(_multi_gate_chunk, [(ch, itps, str(k)) for k, ch in enumerate(c.chunks(pick, c.NPROC))]):
         ck.evaluations += n
         ck.extra["multi_molecule_gate_runs"] = ck.extra.get("multi_molecule_gate_runs", 0) + n
         for t, got, wanted in bad:
-            nbad += 1
-            ck.violation({"kind": "multi-molecule gate", "topology": t["top"], "molecules": {k: open(v).read() for k, v in itps.items()},
+            ck.violation({"kind": "multi-molecule gate", "topology": t["top"], "coordinates": t["co"], "molecules": {k: open(v).read() for k, v in itps.items()},
                           "expected": wanted, "observed": got},
-                         what="gen_coords on [ molecules ] %s (c* connected, d* disconnected residue graph): connectivity gate %s, expected %s" % (
-                             " ".join("%s:%d" % (e["mol"], e["count"]) for e in t["top"]), got, wanted))
+                         what="gen_coords on [ molecules ] %s (c* connected, d* disconnected residue graph), %s: connectivity gate %s, expected %s" % (
+                             " ".join("%s:%d" % (e["mol"], e["count"]) for e in t["top"]), _coord_text(t["co"]), got, wanted))
     for t in pick:
-        if t["refuse"] and t["top"][0]["mol"].startswith("c"):
-            ck.nontrivial.add("gate:" + json.dumps(t["top"]))
-    ck.sample({"multi-molecule gate": {"molecules": pick[0]["top"], "must_refuse": pick[0]["refuse"]}})
+        if t["must_refuse"] and (t["top"][0]["mol"].startswith("c") or t["co"]["kind"] != "none"):
+            ck.nontrivial.add("gate:" + json.dumps([t["top"], t["co"]]))
+    ex = [t for t in pick if t["must_refuse"] and t["co"]["kind"] == "mc"]
+    if ex:
+        ck.sample({"gate with coordinates": {"molecules": ex[0]["top"], "coordinates": ex[0]["co"], "must_refuse": True}})
 
 
 def _edges_are_written(links):
@@ -156,6 +193,8 @@ def check_missing(inp, exp, obs, links, full, blocks=None):
     want = sorted(exp["missing"])
     if obs["missing"] != want:
         diffs.append("missing residue links: expected %s, %s %s" % (want, "warned" if full else "found", obs["missing"]))
+    if "missing0" in obs and sorted(exp["missing0"]) != obs["missing0"]:
+        diffs.append("missing residue links on the freshly mapped molecule (before link application): expected %s, found %s" % (sorted(exp["missing0"]), obs["missing0"]))
     if full:
         redges = sorted(sorted([e["a"], e["b"]]) for e in inp["edges"])
         for e in redges:
@@ -239,7 +278,7 @@ def replay_family(ck, fam, res, tier, rng, n_proc, n_gp):
         for idx, syntax, mode, diffs, known, obs in bad:
             case = dec[idx]
             ck.violation({"kind": "S->I replay", "family": fam, "syntax": syntax, "mode": mode, "input": case["input"], "ff": ffs[case["input"]["ff"] - 1],
-                          "expected": {k: case["expected"][k] for k in ("missing", "connected", "edges", "removed", "verkeydiffers", "verkey", "ints")}, "observed": obs,
+                          "expected": {k: case["expected"][k] for k in ("missing", "missing0", "connected", "edges", "removed", "verkeydiffers", "verkey", "ints")}, "observed": obs,
                           "differences": diffs},
                          what="family %s case %d (%s, %s): %s%s" % (fam, idx, syntax, mode, "; ".join(diffs[:3]), c02.F17_NOTE if known else ""))
     ck.replayed += len(dec)
@@ -249,7 +288,6 @@ def replay_family(ck, fam, res, tier, rng, n_proc, n_gp):
         if e["missing"] and len(e["missing"]) < len(case["input"]["edges"]):
             ck.nontrivial.add("%s:%d" % (fam, i))
     if fam == "M":
-        ck._gate_pool = (dec, ffs)
         mixed = [d for d in dec.values() if d["expected"]["missing"] and len(d["expected"]["missing"]) < len(d["input"]["edges"])]
         if mixed:
             m = mixed[len(mixed) // 2]
@@ -297,6 +335,7 @@ def run(tier):
             ("export_N", "MC_Links", "Lk_export_N.cfg", 3, {}), ("modelN", "MC_Links", "Lk_small_N.cfg", 2, {}),
             ("dev_OrderedPairs", "MC_Links", "Lk_dev_OrderedPairs.cfg", 1, {"check": False}),
             ("gate", "MC_Links", "Lk_gate.cfg", 1, {}), ("dev_GateOnce", "MC_Links", "Lk_dev_GateOnce.cfg", 1, {"check": False}),
+            ("dev_GateBuildOnly", "MC_Links", "Lk_dev_GateBuildOnly.cfg", 1, {"check": False}), ("dev_MissingCache", "MC_Links", "Lk_dev_MissingCache.cfg", 1, {"check": False}),
             ("missing", "MC_Links", "Lk_missing.cfg", 2, {}), ("modelM", "MC_Links", "Lk_small_M.cfg", 3, {}),
             ("devfams", "MC_Links", "Lk_devfams.cfg", 1, {"coverage": True}),
             ("dev_Degree", "MC_Links", "Lk_dev_Degree.cfg", 1, {"check": False}), ("dev_missing", "MC_Links", "Lk_missing_dev.cfg", 1, {"check": False})]
@@ -312,7 +351,9 @@ def run(tier):
         raise c.MachineryError("action FindMissing never taken")
     ck.model_must_hold(results["modelN"], "MissingIsExpected/BondXorMissing with node keys that are a permutation of the residue ids")
     ck.model_must_refute(results["dev_OrderedPairs"], "MissingIsExpected", "independent seed C10-2: joined residue pairs compared as ordered pairs")
-    ck.model_must_hold(results["gate"], "GateIsExpected: the gate refuses iff some molecule of the list is disconnected (584 topologies)")
+    ck.model_must_hold(results["gate"], "GateIsExpected: refuse whenever something is generated for a disconnected molecule, pass connected ones (1,720 cases)")
+    ck.model_must_refute(results["dev_GateBuildOnly"], "GateIsExpected", "independent seed3-C10-2: molecules without a residue to build are exempt")
+    ck.model_must_refute(results["dev_MissingCache"], "MissingIsExpected", "independent seed3-C10-1: candidate atoms remembered from the first evaluation")
     ck.model_must_refute(results["dev_GateOnce"], "GateIsExpected", "independent seed2-C10-1: only the first molecule of the list is inspected")
     ck.model_must_refute(results["dev_Degree"], "MissingIsExpected", "degree filter compares the wrong way (m12), after link application")
     ck.model_must_refute(results["dev_missing"], "MissingIsExpected", "degree filter compares the wrong way (m12), arbitrary edge sets")
@@ -324,9 +365,8 @@ def run(tier):
         ck.model_must_hold(res, "export %s" % fam)
         replay_family(ck, fam, res, tier, rng, n_proc, n_gp)
         res.out = ""
-    ck.stage("gate over multi-molecule topologies")
-    multi_gate_stage(ck, results["gate"], ck._gate_pool[0], ck._gate_pool[1], tier, rng)
-    ck._gate_pool = None
+    ck.stage("gate over multi-molecule topologies and supplied coordinates")
+    multi_gate_stage(ck, results["gate"], tier, rng)
     ck.stage("I->S: random cases through gen_params")
     nrec = 120 if quick else 1200
     seeds = [sd * 100003 + 50000 + k for k in range(nrec)]
@@ -361,7 +401,7 @@ def replay_case(path):
             (wd / ("%s.itp" % k)).write_text(txt)
             itps[k] = str(wd / ("%s.itp" % k))
         mols = [(e["mol"], e["count"]) for e in case["topology"]]
-        got = gate_top([itps[m] for m in sorted({m for m, _ in mols})], mols, wd)
+        got = gate_top([itps[m] for m in sorted({m for m, _ in mols})], mols, wd, case.get("coordinates"))
         print("gate %s, expected %s" % (got, case["expected"]))
         return 0 if got == case["expected"] else 1
     if case["kind"] == "S->I replay":
